@@ -62,6 +62,14 @@ var c11Families = []string{gen.FTiny, gen.FNum, gen.FNum, gen.FMixed, gen.FWide,
 
 func c11Pred(c *rt.Ctx, st *gen.Store, r *rt.Rand) *gen.Node {
 	g := &gen.PredGen{R: r, KeyLits: st.KeyLiterals(r), IntVals: st.ValuesInt(), FltVals: st.ValuesFloat(), Avoid: c.Avoid, FloatEq: true}
+	if c.Case%16 == 7 {
+		// a Boolean literal as the left operand of the keyword `and`, over several chunks
+		g.NoKeyPin = true
+		n := gen.And(gen.Bool(true), g.Atom(1))
+		n.Sym = false
+		c.Rec.Inc("literal_true_and_filter")
+		return n
+	}
 	if r.Chance(1, 4) {
 		// nested prefixes, touching ranges, a prefix with a one-sided range inside it, key lists
 		// around a range, the empty-literal bounds: the constructs the scan-range algebra has cases for
